@@ -141,14 +141,14 @@ pub fn single_mutations(base: &[Token], pool: &Pool, r: &mut Rng, full: bool) ->
             at: n,
         });
     }
-    // junk line after the last field (becomes part of its content for the tokeniser)
-    if n > 0 {
+    // junk line after each field (becomes part of its content for the tokeniser)
+    for pos in 0..n {
         let mut f = base.to_vec();
-        f[n - 1].content.push_str("\nTRAILING JUNK LINE");
+        f[pos].content.push_str("\nTRAILING JUNK LINE");
         out.push(Mutant {
-            kind: "trailing-line",
+            kind: if pos == n - 1 { "trailing-line" } else { "extra-line" },
             fields: f,
-            at: n - 1,
+            at: pos,
         });
     }
     out
